@@ -1104,6 +1104,7 @@ class Spec(object):
         self.undecided = 0
         self.undecided_ops = {}
         self.placed = 0
+        self.directions = 0
         self.ledgered = 0
         self.unplaced = 0
         self.unplaced_ops = {}
@@ -1353,6 +1354,61 @@ class Spec(object):
                 return []
         return None
 
+    def order_prover(self, ex, k, ctor, D0):
+        """-> prove_le(x, y): x <= y from the path's order facts, the unsignedness of sizes and the API
+        preconditions on position arguments."""
+        c = self.cur
+        s = c['lay']['stride']
+        eqs = ex['eqs']
+        fs = list(ex.get('facts') or [])
+        # API precondition: position arguments are iterators into [begin(), end()] of this container
+        if k == 0 and not ctor:
+            E0_ = lin_add(D0, lin_scale(atom(('init', self.cell(2))), s))
+            neq = []
+            for (cnd, v_) in ex.get('conds', ()):
+                a_ = single_atom(cnd)
+                if a_ is not None and a_[0] == 'cmp' and a_[1] == 'eq' and v_ is False:
+                    neq.append(lin_sub(a_[2], a_[3]))
+            for i_, kd in enumerate(c['kinds']):
+                if kd == 'it' and c['bn'] in ('insert', 'emplace', 'erase'):
+                    Ai = atom(('arg', c['pos'][i_]))
+                    fs.append(('le', D0, Ai))
+                    fs.append(('le', Ai, E0_))
+                    dd = lin_sub(Ai, E0_)
+                    if any(same(q, dd, eqs) or same(q, lin_scale(dd, -1), eqs) for q in neq):
+                        fs.append(('le', lin_add(Ai, L(s)), E0_))     # not end(): at least one element follows
+            if c['bn'] == 'erase' and c['kinds'] == ('it', 'it'):
+                fs.append(('le', atom(('arg', c['pos'][0])), atom(('arg', c['pos'][1]))))     # [first, last) is a range
+
+        def prove_le(x, y):
+            """x <= y from the path's order facts: y - x == k * (v - u) + c for a fact u <= v / u < v"""
+            d = sym.canon_divx_sign(lin_sub(y, x))
+            d, _ = reduce_by(d, [sym.canon_divx_sign(q) for q in eqs])
+            cd = const_of(d)
+            if cd is not None:
+                return cd >= 0
+            szcells = [atom(('init', self.cell(2)))[2][0][0], atom(('init', self.cell(1)))[2][0][0]]
+            for i_, kd in enumerate(c['kinds']):
+                if kd == 'n':
+                    szcells.append(('arg', c['pos'][i_]))          # counts are unsigned
+                elif kd == 'il':
+                    szcells.append(('arg', c['pos'][i_] + 1))
+            if d[1] >= 0 and all(co > 0 and at in szcells for at, co in d[2]):
+                return True        # sizes and capacities are unsigned
+            for (kind, u, v) in fs:
+                if (const_of(u) is not None and const_of(u) < 0) or (const_of(v) is not None and const_of(v) < 0):
+                    continue       # an unsigned comparison with a wrapped constant (x <= ~0): says nothing
+                g = sym.canon_divx_sign(lin_sub(v, u))
+                g, _ = reduce_by(g, [sym.canon_divx_sign(q) for q in eqs])
+                for k in (1, 2, 4, 8, 16, s):
+                    r = sym.canon_divx_sign(lin_sub(d, lin_scale(g, k)))
+                    cr = const_of(r)
+                    if cr is not None and (cr >= 0 or (kind == 'lt' and cr >= -k)):
+                        return True
+            return False
+
+        return prove_le
+
     def check_placement(self, ex, segs, eng, k=0, strays=True):
         """-> (verdict, text, detail): verdict 'ok' | 'undecided' | 'bad'.  k: which argument is the
         container whose final sequence is judged (0 = *this)."""
@@ -1380,44 +1436,7 @@ class Spec(object):
         # otherwise the sequence lives somewhere else afterwards (a fresh buffer, the object's own
         # inline buffer, a buffer adopted from the argument): everything that is not already there
         # must be written
-        fs = list(ex.get('facts') or [])
-        # API precondition: position arguments are iterators into [begin(), end()] of this container
-        if k == 0 and not ctor:
-            E0_ = lin_add(D0, lin_scale(atom(('init', self.cell(2))), s))
-            neq = []
-            for (cnd, v_) in ex.get('conds', ()):
-                a_ = single_atom(cnd)
-                if a_ is not None and a_[0] == 'cmp' and a_[1] == 'eq' and v_ is False:
-                    neq.append(lin_sub(a_[2], a_[3]))
-            for i_, kd in enumerate(c['kinds']):
-                if kd == 'it' and c['bn'] in ('insert', 'emplace', 'erase'):
-                    Ai = atom(('arg', c['pos'][i_]))
-                    fs.append(('le', D0, Ai))
-                    fs.append(('le', Ai, E0_))
-                    dd = lin_sub(Ai, E0_)
-                    if any(same(q, dd, eqs) or same(q, lin_scale(dd, -1), eqs) for q in neq):
-                        fs.append(('le', lin_add(Ai, L(s)), E0_))     # not end(): at least one element follows
-
-        def prove_le(x, y):
-            """x <= y from the path's order facts: y - x == k * (v - u) + c for a fact u <= v / u < v"""
-            d = sym.canon_divx_sign(lin_sub(y, x))
-            d, _ = reduce_by(d, [sym.canon_divx_sign(q) for q in eqs])
-            cd = const_of(d)
-            if cd is not None:
-                return cd >= 0
-            szcells = (atom(('init', self.cell(2)))[2][0][0], atom(('init', self.cell(1)))[2][0][0])
-            if d[1] >= 0 and all(co > 0 and at in szcells for at, co in d[2]):
-                return True        # sizes and capacities are unsigned
-            for (kind, u, v) in fs:
-                g = sym.canon_divx_sign(lin_sub(v, u))
-                g, _ = reduce_by(g, [sym.canon_divx_sign(q) for q in eqs])
-                for k in (1, 2, 4, 8, 16, s):
-                    r = sym.canon_divx_sign(lin_sub(d, lin_scale(g, k)))
-                    cr = const_of(r)
-                    if cr is not None and (cr >= 0 or (kind == 'lt' and cr >= -k)):
-                        return True
-            return False
-
+        prove_le = self.order_prover(ex, k, ctor, D0)
         if isinstance(segs, tuple) and segs and segs[0] == 'resize':
             # two-sided: which side this path is on must follow from the path's own order facts
             S0 = atom(('init', self.cell(2)))
@@ -1431,8 +1450,14 @@ class Spec(object):
             else:
                 return ('undecided', 'the path does not say whether the container grows or shrinks', None)
 
+        d_atoms = set(at for at, co in D1[2]) | set(at for at, co in D0[2])
+
         def is_temp(t):
-            return sym.is_lin(t) and any(at[0] == 'alloca' for at, co in t[2])
+            # a local of some function on the path, or a block obtained on the path that is not the
+            # container's buffer afterwards (the heap temporary used under constant evaluation)
+            if not sym.is_lin(t):
+                return False
+            return any(at[0] == 'alloca' or (at[0] in ('ret', 'newbuf') and at not in d_atoms) for at, co in t[2])
         temps = {}
         writes = []
         for i, e in enumerate(effs):
@@ -1772,6 +1797,39 @@ class Spec(object):
                           'specified': show(want, c), 'path_equalities': [show(q, c) for q in eqs][:6],
                           'through': self.via(ex)})
                 self.decided += 1
+        # ---- R01.5: a range copied within one buffer must run in the direction that does not overwrite
+        # what is still to be read (any element type: the effects of the library's own copy loops and of
+        # memmove/memcpy are known even where single stores are not) -----------------------------------
+        if ex.get('effects') and not ex.get('approx'):
+            D0_ = atom(('init', self.cell(0)))
+            prove_le = self.order_prover(ex, 0, c['bn'] == 'small_vector::small_vector', D0_)
+            nd = 0
+            for x in ex['effects']:
+                if x[4] != 'range' or x[3] is None or x[6] is None or x[0] not in ('assign', 'construct', 'bytecopy'):
+                    continue
+                if x[0] == 'bytecopy' and x[1] == 'memmove':
+                    continue
+                a_, b_, sa_, sb_, dr = x[2], x[3], x[5], x[6], x[7]
+                if same(a_, sa_, eqs) or same(a_, b_, eqs):
+                    continue
+                right = prove_le(sa_, a_) and not prove_le(sb_, a_)
+                left = prove_le(a_, sa_) and not prove_le(b_, sa_)
+                # provably overlapping is more than can be shown in general; "starts inside the other
+                # range's span and is not provably disjoint" is the structural condition
+                if right and (dr == 1 or (x[0] == 'bytecopy' and x[1] == 'memcpy')):
+                    self.rep('R01.5', False, 'elements are copied towards the end of the same buffer in ascending order although source '
+                             'and destination may overlap: sources are overwritten before they are read',
+                             {'operation': self.eff_text(x, c), 'through': self.via(ex)})
+                    nd += 1
+                elif left and (dr == -1 or (x[0] == 'bytecopy' and x[1] == 'memcpy')):
+                    self.rep('R01.5', False, 'elements are copied towards the front of the same buffer in descending order although source '
+                             'and destination may overlap: sources are overwritten before they are read',
+                             {'operation': self.eff_text(x, c), 'through': self.via(ex)})
+                    nd += 1
+                elif right or left:
+                    self.rep('R01.5', True, 'overlapping copy runs in the safe direction')
+                    nd += 1
+            self.directions += nd
         segs = e.get('place')
         if segs is not None and self.placement_ok(c):
             self._ledger = None
@@ -1882,11 +1940,15 @@ def analyse_tu(eng, cfg):
         for f in irrules.gch_roots(eng):
             if is_public(f) and wrong.start(f):
                 laws.walk(f, lambda: LawRule(laws, wrong))
-        flagged = set((r.rule, r.key['operation']) for r in wrong.reports.values() if not r.ok and r.rule.startswith('R01'))
-        passed = set((r.rule, r.sample['operation']) for r in wrong.reports.values() if r.ok and r.rule.startswith('R01'))
+        # (R01.5 does not depend on the specification, R03.7 belongs to C03)
+        ctl = ('R01.1', 'R01.2', 'R01.4')
+        flagged = set((r.rule, r.key['operation']) for r in wrong.reports.values() if not r.ok and r.rule in ctl)
+        passed = set((r.rule, r.sample['operation']) for r in wrong.reports.values() if r.ok and r.rule in ctl)
         control = {'flagged': len(flagged), 'wrongly_passed': sorted(passed - flagged)[:10], 'passed_somewhere': len(passed)}
+    marker = any('heap_temporary' in (fn.pretty or '') for fn in eng.mod.funcs.values())
     return {'reports': list(spec.reports.values()), 'functions': n, 'decided': spec.decided, 'control': control,
+            'flavour_marker': marker,
             'undecided_paths': spec.undecided, 'undecided_ops': spec.undecided_ops,
-            'placed': spec.placed, 'unplaced': spec.unplaced, 'ledgered': spec.ledgered, 'unplaced_ops': spec.unplaced_ops,
+            'placed': spec.placed, 'unplaced': spec.unplaced, 'ledgered': spec.ledgered, 'directions': spec.directions, 'unplaced_ops': spec.unplaced_ops,
             'operations': sorted(ops), 'laws': laws.stats, 'skipped_operations': skipped,
             'law_functions': sorted(base_name(eng.oracle.pretty.get(k, k)) for k, v in laws.memo.items() if v is not None)}
